@@ -2,7 +2,6 @@
 (cylc/flow/cycling/integer.py: IntegerSequence, IntegerExclusions)."""
 import itertools
 import json
-import os
 from pathlib import Path
 
 from vp.core import Stream
@@ -17,6 +16,9 @@ TRUSTED = [
     "around canonical decimal integers in every generated case)",
 ]
 ASSUMES = [
+    "exclusion sequences are read in the context [first point, last point] of the recurrence they modify "
+    "(what IntegerExclusions does); for a recurrence whose clipped progression is empty they carry no meaning",
+    "on an unbounded sequence whose whole tail is excluded the searches upwards do not terminate; no answer is specified",
     "recurrence components are canonical decimal integers / +Pn / -Pn; context points are integer strings "
     "as passed by WorkflowConfig (str(icp), fcp or None)",
     "spec side conditions: repetitions n >= 1 and interval k >= 1 (R0 and P0 are modelled and compared "
@@ -92,7 +94,7 @@ class ExpectError(Exception):
     """the input must be rejected (missing context point, negative step)"""
 
 
-def _res(p, ctx, default_ok=True):
+def _res(p, ctx):
     if p is None:
         if ctx is None:
             raise ExpectError("missing context point")
@@ -209,10 +211,6 @@ class RefSeq:
         else:
             hi = max([self.lo or 0] + list(qs)) + 200
         return lo, hi
-
-
-def resolve_error_ok(exc):
-    return exc.split(":")[0] in ("CylcMissingContextPointError", "TypeError", "ValueError")
 
 
 KNOWN_FILE = Path(__file__).resolve().parent.parent.parent / "known_findings.d" / "C16.json"
@@ -343,7 +341,10 @@ class IntSeqStream(Stream):
     def failures(self, c, r):
         """all deviations from the property text, as (class, text)"""
         if c.get("kind") == "malformed":
-            # only requirement: rejected or handled without a crash of the harness
+            # out-of-fragment strings carry no progression; only requirement:
+            # a string no recurrence regex matches is rejected as such
+            if r.get("form") is None and "parse_exc" not in r and r.get("init") != "E:SequenceParsingError":
+                return [("malformed-not-rejected", f"{r.get('rec')!r}: {r.get('init')}")]
             return []
         fails = []
         rec = r.get("rec")
@@ -376,7 +377,6 @@ class IntSeqStream(Stream):
         qs = c["q"]
         lo, hi = ref.window(qs)
         members = [p for p in range(lo, hi + 1) if ref.member(p)]
-        empty = not members and not ref.unbounded
         # membership
         bad = [(p, v) for p, v in zip(qs, r["valid"]) if v != ref.member(p)]
         if bad:
@@ -419,8 +419,11 @@ class IntSeqStream(Stream):
                 chk.append(("nos", least_gt(p)))
             for api, exp in chk:
                 got = r[api][i]
-                if top is not None and exp is None and api in ("next", "first", "nos"):
-                    continue   # unbounded sequence, nothing found in the window: unspecified here
+                if top is not None and least_gt(p) is None and api in ("next", "first", "nos", "nprev"):
+                    # unbounded sequence whose whole tail above p is excluded: the code
+                    # searches upwards for ever (nprev does too, through its loop);
+                    # the property text gives no answer here -- not checked
+                    continue
                 if got != exp:
                     fails.append((self.q_class(c, ref, p, api, exp),
                                   f"{ctx}: {api}({p})={got} expected {exp}"))
@@ -684,15 +687,15 @@ class IntSeqStream(Stream):
         if quick:
             ex = self._exhaustive([-1, 0, 2, 5, 8], [1, 2, 3], [1, 2, 3, 5],
                                   [(1, 10), (0, 7), (-2, 4), (3, None), (2, 2), (4, 3)])
-            cases += rng.sample(ex, 1500)
+            cases += rng.sample(ex, 1000)
         else:
             cases += self._exhaustive(list(range(-2, 10)), [1, 2, 3, 4], [1, 2, 3, 4, 6],
                                       [(1, 10), (0, 7), (-2, 4), (3, None), (2, 2), (4, 3), (0, 1), (-1, 8)])
         # 2. random small cases with exclusions
-        for _ in range(2200 if quick else 25000):
+        for _ in range(1200 if quick else 25000):
             cases.append(self._rand_case(rng, -2, 9, 4, 5))
         # 3. random larger values
-        for _ in range(300 if quick else 5000):
+        for _ in range(150 if quick else 5000):
             c = self._rand_case(rng, -40, 120, 17, 9, kind="random-large")
             I, F = c["I"], c.get("F")
             top = F if F is not None else I + 60
@@ -775,8 +778,8 @@ class IntSeqStream(Stream):
 IntSeqStream.rule = (
     "cases = (named recurrence form, values, initial/final point, exclusion points, exclusion sequences, "
     "query points); the string is rendered, the real constructor and all eight API methods are called for "
-    "every query point. quick: 1500 sampled from the exhaustive no-exclusion box (11 forms x values in "
-    "{-1,0,2,5,8,+-P0..2} x k<=3 x n<=5 x 6 contexts) + 2200 random small cases with exclusions + 300 random "
+    "every query point. quick: 1000 sampled from the exhaustive no-exclusion box (11 forms x values in "
+    "{-1,0,2,5,8,+-P0..2} x k<=3 x n<=5 x 6 contexts) + 1200 random small cases with exclusions + 150 random "
     "large + R0/P0 + malformed strings; thorough: the whole box over [-2,9] (8 contexts) + 25000 + 5000. "
     "non-trivial = constructed sequence with >= 2 valid query points or with exclusions")
 
